@@ -45,7 +45,7 @@ def unit_overlap(ctx, dtype):
     info = {"dtype": dtype, "prefer": [["(<= size_S 4)"]]}
     rets = [q for q in paths if q.kind == "return"]
     ctx.expect(f"{nm}: a returning path exists", bool(rets))
-    ctx.side_obligations(paths, nm, func=fn, replay="c09.overlap_layout", skip=lambda s: not s.startswith("layout-independence"), info=dict(info, structural=True))
+    ctx.side_obligations(paths, nm, func=fn, replay="c09.overlap_layout", skip=lambda s: not s.startswith("layout-independence"), info=dict(info))  # decided by the mixed-layout replay
     for pi, q in enumerate(paths):
         sp, Rr, P = q.state["sp"], q.state["R"], q.state["P"]
         if q.kind != "return":
